@@ -147,7 +147,7 @@ def cmd_check(sid, tier='quick', props=None):
 		ap = sh(['git', '-C', '/repo', 'apply', '--3way', '--whitespace=nowarn', patch])
 	if ap.returncode != 0:
 		print(sid, 'patch does not apply:', ap.stderr[-300:])
-		sh(['git', '-C', '/repo', 'checkout', '--', '.'])
+		sh(['git', '-C', '/repo', 'reset', '-q', '--hard', 'HEAD'])   # a failed --3way leaves unmerged entries
 		return
 	try:
 		# evidence/replays of the unchanged tree must not be overwritten by a run on a changed tree
